@@ -58,7 +58,10 @@ manifest = dict(
         serves_properties=[c["property_id"] for c in checks],
         kind_free_text="repository-specific static analyser: class table + C3 MRO + call resolution (sa/model.py), "
                        "structural path enumeration (sa/paths.py), reaching-definition / write-effect / freshness "
-                       "dataflow and small symbolic evaluators (sa/*.py), one rule module per property (rules/)",
+                       "dataflow and small symbolic evaluators (sa/*.py), one rule module per property (rules/); before the rules "
+                       "run, behaviour-preserving restructuring is removed by program transformations with stated safety "
+                       "conditions (helper inlining, control-flow and idiom normal forms, forward substitution, equality of the "
+                       "set of ways through a function: sa/canon.py, sa/inline.py, DESIGN.md 2.1)",
     )],
     checks=checks,
     not_applicable=na,
